@@ -66,7 +66,7 @@ def some(rng, pool):
     return {"some": True, "v": rng.choice(pool)} if rng.random() < 0.6 else {"some": False, "v": ""}
 
 
-def gen_l2t(rng):
+def gen_l2t(rng, k=None):
     rounds = []
     for _ in range(6):
         col = {"cap": rng.randint(0, 5), "prefix": rng.choice(PREFIXES), "hint": rng.random() < 0.6, "inen": rng.random() < 0.5, "installed": rng.random() < 0.9}
@@ -79,14 +79,15 @@ def gen_l2t(rng):
                          "file": some(rng, ["src/lib.rs", "a b/c.rs", ""]), "module": some(rng, ["m", "a::b::c", ""]),
                          "line": rng.choice([-1, 0, 1, 4242, 2 ** 31 - 1]), "via_macro": via == "logger" and rng.random() < 0.35, "via": via})
         rounds.append({"collector": col, "records": recs})
-    ignore = rng.choice(IGNORES)
+    # every ignore list, and each way of handing it over, is used in turn (k = the behaviour's number)
+    ignore = rng.choice(IGNORES) if k is None else IGNORES[k % len(IGNORES)]
     b = {"mode": "l2t", "ignore": ignore, "rounds": rounds}
     if rng.random() < 0.4:
         b["max_level"] = rng.randint(1, 5)
     if not ignore:
         b["ctor"] = rng.choice(["builder", "init_with_filter"]) if "max_level" in b else rng.choice(["builder", "init", "new"])
     else:
-        b["ctor"] = rng.choice(["builder", "ignore_all"])
+        b["ctor"] = rng.choice(["builder", "ignore_all"]) if k is None else ["builder", "ignore_all"][(k // len(IGNORES)) % 2]
     return b
 
 
@@ -169,8 +170,8 @@ def run(out, tier):
     behs = [{"mode": "levels"}]
     for _ in range(40 if quick else 600):
         behs.append(gen_t2l(rng, sites, ids))
-    for _ in range(24 if quick else 300):
-        behs.append(gen_l2t(rng))
+    for k in range(24 if quick else 300):
+        behs.append(gen_l2t(rng, k))
     # sweep: every callsite of the corpus once in a process that never installs a collector
     for k in range(0, len(ids), 60):
         behs.append({"mode": "t2l", "steps": [site_step(rng, sites, i) for i in ids[k:k + 60]]})
